@@ -214,7 +214,8 @@ def gcellStr (c : GCell) : String :=
   toString c.ch ++ "," ++ hexOrDash c.text ++ "," ++ toString c.width ++ "," ++ b01 c.cont ++ "," ++ styStr c.sty
 
 def qrowsOf (t : GTerm) : Array String :=
-  ((t.main.rows ++ t.alt.rows).map fun r => if r.isEmpty then "-" else "_".intercalate (r.map gcellStr)).toArray
+  ((t.main.rows ++ t.alt.rows).map fun r =>
+    (if r.isEmpty then "-" else "_".intercalate (r.map gcellStr)) ++ " " ++ hexOrDash r.ansi).toArray
 
 def rowsOf (t : Term) : Array String :=
   ((t.main.grid.map rowStr) ++ (t.alt.grid.map rowStr)).toArray
